@@ -66,6 +66,9 @@ type Frame struct {
 	curReach   string
 	heapIn     Heap
 	entryReach string
+	curQual    string
+	qualOrd    map[string]int
+	secHeap    Heap // heap right after the last "havoc" site clause (start of the critical section)
 	unrolling  map[int]bool
 	heap       Heap // current heap while translating a block
 	oldHeap    Heap // heap for old() in spec expressions (entry heap of the top function / callee)
@@ -842,7 +845,9 @@ func (fr *Frame) collectNames() {
 			switch x := in.(type) {
 			case *ssa.DebugRef:
 				if id, ok := x.Expr.(*ast.Ident); ok {
-					fr.names[id.Name] = append(fr.names[id.Name], nameBind{x.X, b, ord, x.IsAddr})
+					if v, isVar := x.Object().(*types.Var); isVar && !v.IsField() {
+						fr.names[id.Name] = append(fr.names[id.Name], nameBind{x.X, b, ord, x.IsAddr})
+					}
 				}
 			case *ssa.Phi:
 				if x.Comment != "" {
@@ -904,8 +909,15 @@ func (fr *Frame) lookupName(name string, at *ssa.BasicBlock, atEnd bool) (ssa.Va
 			return fv, true, true
 		}
 	}
+	if bs := fr.names[name]; len(bs) > 0 {
+		// the variable exists in this function but is not defined on the paths reaching this point
+		return undefinedHere{bs[0].v}, bs[0].isAddr, true
+	}
 	return nil, false, false
 }
+
+// marker: a variable of the function that has no value at the point of evaluation
+type undefinedHere struct{ ssa.Value }
 
 // run translates the body. args are bound to params. Returns merged result, heap, reach.
 func (fr *Frame) run(args []Val, entryReach string, heapIn Heap) (Val, Heap, string) {
@@ -1069,13 +1081,12 @@ func (fr *Frame) enterLoop(li *loopInfo) {
 	vc := fr.vc
 	ms := fr.loopModSet(li)
 	if ms.All {
-		vc.havocAll(&fr.heap, "loop")
-	} else {
-		for _, m := range ms.list() {
-			vc.havocMap(&fr.heap, m)
-		}
-		vc.havocMap(&fr.heap, "$alloc")
+		vc.havocExcept(&fr.heap, ms.Except)
 	}
+	for _, m := range ms.list() {
+		vc.havocMap(&fr.heap, m)
+	}
+	vc.havocMap(&fr.heap, "$alloc")
 	for _, in := range li.head.Instrs {
 		ph, ok := in.(*ssa.Phi)
 		if !ok {
@@ -1233,6 +1244,7 @@ func (fr *Frame) block(b *ssa.BasicBlock, ov *headOverride) {
 	fr.curReach = reach
 	fr.reach[b.Index] = reach
 	fr.heap = heap
+	vc.curFrame = fr
 	if li != nil {
 		fr.enterLoop(li)
 	}
